@@ -47,12 +47,14 @@ def measure(port):
 
 
 # ------------------------------------------------------------------ scenario language
-def H(sid, status, body, reqlen=0, incr=0, es=1, dep="-", padbad=0, contbad=0):
+def H(sid, status, body, reqlen=0, incr=0, es=1, dep="-", padbad=0, contbad=0, cont=None):
+    """cont: number of CONTINUATION frames the header block is split into (None = at random)"""
     if not es and status != 400 and reqlen == 0:
         reqlen = -1            # no END_STREAM and no content-length: body length unknown
     if status == 400:
         reqlen = 0             # rejected request: body length forced to 0
-    return "H:%d:r%d,%d,%d,%d:%d:%s:%d:%d" % (sid, status, body, reqlen, incr, es, dep, padbad, contbad)
+    t = "H:%d:r%d,%d,%d,%d:%d:%s:%d:%d" % (sid, status, body, reqlen, incr, es, dep, padbad, contbad)
+    return t if cont is None else t + ":%d" % cont
 
 
 def alphabet(l404, l400):
@@ -74,8 +76,8 @@ def alphabet(l404, l400):
     return A
 
 
-def gen(ctx, l404, l400):
-    rng = ctx.rng
+def gen(ctx, l404, l400, rng=None):
+    rng = rng or ctx.rng
     A = alphabet(l404, l400)
     lines = []
     # exhaustive: every sequence of length <= n after a prefix that opens stream 1 (POST without END_STREAM,
@@ -122,6 +124,14 @@ def gen(ctx, l404, l400):
         evs = [H(1 + 2 * i, 200, 100000, reqlen=-1, es=0) for i in range(8 + extra)]
         lines.append("h2 S:0:0:4=0:0 q " + " ".join(evs) + " q W:0:4:2000000 q")
         lines.append("h2 S:0:0:4=0:0 q " + " ".join(evs[:8]) + " q R:3:4:8 " + " ".join(evs[8:]) + " q")
+        # the same deferral (all slots taken, one stream just reset, new HEADERS in the same read) with the
+        # new stream's header block forced into HEADERS + 1 / 2 CONTINUATION frames: the merged frame is
+        # parsed a second time after the slot has been freed
+        for ncont in (1, 2):
+            evc = [H(1 + 2 * i, 200, 100000, reqlen=-1, es=0, cont=ncont) for i in range(8, 8 + extra)]
+            lines.append("h2 S:0:0:4=0:0 q " + " ".join(evs[:8]) + " q R:3:4:8 " + " ".join(evc) + " q")
+            lines.append("h2 S:0:0:4=0:0 q " + " ".join(evs[:8]) + " q R:5:4:8 P:0:0:8 " + " ".join(evc)
+                         + " P:0:0:8 q W:0:4:2000000 q")
         # frames in flight for a refused stream, then retries once slots are free again
         last = 1 + 2 * (8 + extra - 1)
         nxt = last + 2
@@ -133,9 +143,70 @@ def gen(ctx, l404, l400):
     return lines
 
 
-def build_frames(c, tok, rng, opened=None):
+class MiniHpack:
+    """small HPACK encoder written for the in-process stream (no nghttp2 state to carry across
+    processes): static-table references, literals without indexing, and literals WITH incremental
+    indexing + dynamic-table references for the field names in `index`"""
+    STATIC = {(":method", "GET"): 2, (":method", "POST"): 3, (":path", "/"): 4, (":scheme", "http"): 6,
+              (":scheme", "https"): 7}
+    STATIC_NAME = {":authority": 1, ":method": 2, ":path": 4, ":scheme": 6, "content-length": 28}
+
+    def __init__(self, index=("x-u",)):
+        self.dyn = []              # newest first
+        self.size = 0
+        self.index = set(index)
+
+    @staticmethod
+    def _int(v, bits, first):
+        lim = (1 << bits) - 1
+        if v < lim:
+            return bytes([first | v])
+        out = [first | lim]
+        v -= lim
+        while v >= 128:
+            out.append(0x80 | (v & 0x7f)); v >>= 7
+        out.append(v)
+        return bytes(out)
+
+    def _str(self, b):
+        b = b if isinstance(b, bytes) else b.encode()
+        return self._int(len(b), 7, 0) + b
+
+    def encode(self, headers):
+        out = b""
+        for n, v in headers:
+            n = n.decode() if isinstance(n, bytes) else n
+            v = v.decode() if isinstance(v, bytes) else v
+            if (n, v) in self.STATIC:
+                out += self._int(self.STATIC[(n, v)], 7, 0x80)
+            elif (n, v) in self.dyn:
+                out += self._int(62 + self.dyn.index((n, v)), 7, 0x80)
+            elif n in self.index:
+                out += self._int(self.STATIC_NAME.get(n, 0), 6, 0x40)
+                if n not in self.STATIC_NAME:
+                    out += self._str(n)
+                out += self._str(v)
+                self.dyn.insert(0, (n, v))
+                self.size += len(n) + len(v) + 32
+                while self.size > 4096:
+                    en, ev = self.dyn.pop()
+                    self.size -= len(en) + len(ev) + 32
+            else:
+                out += self._int(self.STATIC_NAME.get(n, 0), 4, 0x00)
+                if n not in self.STATIC_NAME:
+                    out += self._str(n)
+                out += self._str(v)
+        return out
+
+
+ERRBODY = 345          # body length the in-process harness gives a request the parser rejected
+
+
+def build_frames(c, tok, rng, opened=None, inproc=False, table=None):
     """token -> raw bytes for the real server; `opened` = stream ids that already carried HEADERS
-    (a further HEADERS frame on them is sent as trailers: no pseudo-header fields)"""
+    (a further HEADERS frame on them is sent as trailers: no pseudo-header fields).
+    inproc: request paths "/r/<status>/<bodylen>" (the scripted producer of h_h2.c) instead of files;
+    table: dict filled with header block (hex) -> HdrKind token, the HPACK look-up of model op h2b"""
     a = tok.split(":")
     k = a[0]
     if k == "S":
@@ -163,24 +234,34 @@ def build_frames(c, tok, rng, opened=None):
         fl = es
         if pad != "-":
             fl |= 8
-            pl = (bytes([int(pad)]) + b"d" * ln)[:ln] if ln else b""
+            p = int(pad)
+            if inproc and p < ln:
+                # data octets 'd', padding octets 'P': the harness checks what reaches the request body
+                pl = bytes([p]) + b"d" * (ln - 1 - p) + b"P" * p
+            else:
+                pl = (bytes([p]) + b"d" * ln)[:ln] if ln else b""
         else:
             pl = b"d" * ln
         return e2e.h2_frame(0, fl, int(a[1]), pl)
     if k == "H":
         sid, kind, es, dep, padbad, contbad = int(a[1]), a[2], int(a[3]), a[4], int(a[5]), int(a[6])
+        ncont = int(a[7]) if len(a) > 7 else None
         if kind == "x":
             blk = b"\xff\xff\xff\xff\xff\xff\xff"
+            if table is not None:
+                table[blk.hex()] = "x"
         elif opened is not None and sid in opened:
             blk = c.hp.encode([("x-trailer", "t%d" % sid)])
+            if table is not None:
+                table[blk.hex()] = "r0,0,0,0"
         else:
             status, body, reqlen, incr = [int(x) for x in kind[1:].split(",")]
             method = "GET" if es else "POST"
             hs = [(":method", method), (":scheme", "http")]
             if status == 200:
-                hs.append((":path", "/f%d.bin" % body))
+                hs.append((":path", "/r/200/%d" % body if inproc else "/f%d.bin" % body))
             elif status == 404:
-                hs.append((":path", "/nope"))
+                hs.append((":path", "/r/404/%d" % body if inproc else "/nope"))
             # status 400: no :path, or (every other stream) a forbidden field in mid-block,
             # so that the rest of the block -- with a new dynamic-table entry -- is discarded
             elif (sid // 2) % 2 == 1:
@@ -197,6 +278,10 @@ def build_frames(c, tok, rng, opened=None):
             # entries that later requests reference -- a decoder that loses them goes out of sync
             hs.append(("x-u", "u%d" % (sid // 6)))
             blk = c.hp.encode(hs)
+            if table is not None:
+                if blk.hex() in table and table[blk.hex()] != kind:
+                    raise ValueError("header block %s stands for two request kinds" % blk.hex())
+                table[blk.hex()] = kind
         fl = es
         pre = b""
         if dep != "-":
@@ -207,9 +292,12 @@ def build_frames(c, tok, rng, opened=None):
             return e2e.h2_frame(1, fl | 4, sid, bytes([250]) + pre + blk[:3])
         if contbad:
             return e2e.h2_frame(1, fl, sid, pre + blk) + e2e.h2_frame(6, 0, 0, b"12345678")
-        # valid: sometimes split into CONTINUATION frames
-        if len(blk) > 4 and rng.random() < 0.3:
-            cut = sorted(rng.sample(range(1, len(blk)), min(rng.randint(1, 2), len(blk) - 1)))
+        # valid: split into CONTINUATION frames as the token says, or sometimes at random
+        if ncont is None:
+            ncont = rng.randint(1, 2) if len(blk) > 4 and rng.random() < 0.3 else 0
+        ncont = min(ncont, len(blk) - 1)
+        if ncont > 0:
+            cut = sorted(rng.sample(range(1, len(blk)), ncont))
             parts = [blk[i:j] for i, j in zip([0] + cut, cut + [len(blk)])]
             out = e2e.h2_frame(1, fl, sid, pre + parts[0])
             for i, p in enumerate(parts[1:]):
@@ -224,6 +312,9 @@ def build_frames(c, tok, rng, opened=None):
         return e2e.h2_frame(5, 4, int(a[1]), struct.pack(">I", 2) + b"\x82")
     if k == "O":
         return struct.pack(">I", 16385)[1:] + bytes([6, 0]) + struct.pack(">I", 0)
+    if k == "B":
+        # raw octets (in-process stream only): B:<hex>
+        return bytes.fromhex(a[1])
     raise ValueError(tok)
 
 
